@@ -18,7 +18,7 @@ class Spec(pipeprops.PropSpec):
             "round-robin; non-trivial = some class with >= 2 instances and some non-typing triple")
 
     def gen_cases(self, tier, rnd):
-        n = 2500 if tier == "thorough" else 150
+        n = 6000 if tier == "thorough" else 400
         cases = []
         for i in range(n):
             r = random.Random(rnd.getrandbits(48))
